@@ -176,6 +176,7 @@ impl BinCtx {
         let mut args: Vec<std::ffi::OsString> = vec![];
         let mut envs: Vec<(String, std::ffi::OsString)> = vec![];
         let mut model: Vec<String> = vec![];
+        let mut extra_note: Option<String> = None;
         self.addrs.clear();
         for t in toks {
             let (k, v) = t.split_once('=').unwrap();
@@ -266,6 +267,30 @@ impl BinCtx {
                     }
                     model.push(format!("versions={src}:{}", if val.is_empty() { "-" } else { val }));
                 }
+                "extra" => {
+                    // extra=auto:flag|env — every boolean switch the binary advertises in --help that the model
+                    // does not know is switched ON (by flag, or by the environment variable --help names for it).
+                    // The properties quantify over every configuration; the model knows the options listed below.
+                    let known = ["listen", "data-dir", "allow-client-id", "snapshot-versions", "snapshot-days", "help", "version"];
+                    let help = Command::new(&self.bin).arg("--help").env_clear().output().map(|o| String::from_utf8_lossy(&o.stdout).to_string()).unwrap_or_default();
+                    let mut found: Vec<String> = vec![];
+                    for line in help.lines() {
+                        let l = line.trim_start();
+                        if !l.starts_with('-') { continue; }
+                        let Some(i) = l.find("--") else { continue };
+                        let rest = &l[i + 2..];
+                        let name: String = rest.chars().take_while(|c| c.is_ascii_alphanumeric() || *c == '-').collect();
+                        if name.is_empty() || known.contains(&name.as_str()) { continue; }
+                        let after = rest[name.len()..].trim_start();
+                        if after.starts_with('<') || after.starts_with('=') || after.starts_with('[') && !after.starts_with("[env") { continue; } // takes a value
+                        let envname = l.find("[env: ").map(|j| l[j + 6..].chars().take_while(|c| *c != '=' && *c != ']').collect::<String>());
+                        match (val, envname) {
+                            ("env", Some(e)) => { envs.push((e.clone(), "true".into())); found.push(format!("{e}=true")); }
+                            _ => { args.push(format!("--{name}").into()); found.push(format!("--{name}")); }
+                        }
+                    }
+                    extra_note = Some(if found.is_empty() { "-".to_string() } else { found.join(",") });
+                }
                 "log" => {
                     // RUST_LOG of the server process (default: error)
                     envs.push(("RUST_LOG".into(), v.into()));
@@ -285,6 +310,9 @@ impl BinCtx {
         self.args = args;
         self.envs = envs;
         let ok = self.spawn();
+        if let Some(n) = extra_note {
+            self.h.l1.out.push(format!("OP mark extra-options {n}"));
+        }
         self.h.l1.out.push(format!("OP boot {}", model.join(" ")));
         self.h.l1.out.push(format!("R booted {} addrs={}", if ok { "up" } else { "FAILED" }, self.addrs.len()));
     }
